@@ -144,6 +144,13 @@ def run(ctx, res):
                     continue            # a stray CR inside a line: outside the well-formed domain
                 base_obs = obs_with_offsets(comps)
                 base_ser = [T.impl_ser(c) for c in comps]
+                if len(lines) % 2 == 0:
+                    # the first tree belongs to the caller: whatever is done to it, the rewritten texts still parse to what it was
+                    for c in comps:
+                        try:
+                            T.scramble(c)
+                        except Exception:  # noqa: BLE001
+                            pass
                 variants = []
                 variants.append(("lf", layout([[l] for l in lines], "\n", " ", 0).encode("utf-8")))
                 variants.append(("bom", b"\xef\xbb\xbf" + text.encode("utf-8")))
